@@ -49,14 +49,15 @@ CLAIMS = {
    note=TB + "cross-acceptance therefore needs a SHAKE256 or pre-hash collision; the confusion family (all splits, all other modes, crafted mimicry) is executed on the crate on every run.",
    tech="Lean 4 proof of encoding injectivity over translated OIDs/domain bytes + exhaustive alternative-interpretation runs per signed string"),
  'C01': dict(cat='proof', ref='DESIGN 5 C01',
-   text="Lean proof (one named hypothesis left) + differential execution. Proved for all inputs and oracles, no bound on sizes: Algorithm 8 returns true on what Algorithm 7 emits (signature_verifies_spec_partial), where Algorithms 7 / 8 are the exact specifications "
-        "signSpec / verifySpec that C03 / C02 prove equal to the crate's sign_internal / verify_internal for every input, and the key is any (rho, K, tr, s1, s2) with t = A s1 + s2, (t1, t0) = Power2Round(t) (what C04 proves key generation produces). The proof: "
-        "the two transforms are mutually inverse modulo q (invS_nttS, nttS_invS over the generated zeta table); the verifier's ring identity NTT^-1(A_hat.NTT(z) - NTT(c).NTT(t1 2^d)) = A y - c s2 + c t0 row by row (verifier_ring_identity, by evaluation at the 256 roots); "
-        "UseHint(MakeHint(z, r), r) = HighBits(r + z) and stability of HighBits under shifts below the LowBits margin (hint duality); ||c s|| <= tau eta for every challenge sample_in_ball returns; so an accepted attempt (all four tests of Algorithm 7) yields the same w1, the same commitment hash and a passing norm test in Algorithm 8 "
-        "(accepted_attempt_verifies), lifted through the rejection loop and the encoder. The one hypothesis not discharged in Lean: the emitted signature bytes decode back to the (c~, z, h) that were encoded (sigDecode after sigEncode; the opposite direction is C08's theorem). Also proved: a signature is emitted only after the four rejection checks passed, "
-        "signer and verifier hash the same formatted message, and the kernel-level hint facts for the crate's own make_hint / use_hint. Decided on every run as well by verify(sign(..)) = true on the crate over all modes, sets and 2 x 4 key-provenance pairs, plus model agreement on a sample.",
-   note=TB + "end-to-end completeness on the crate's functions composes this theorem with C02, C03, C04, C08, C09, C11 (each claimed separately) and with the undischarged decode-after-encode hypothesis.",
-   tech="Lean 4 proof that Algorithm 8 accepts Algorithm 7's output (ring identity, hint duality, norm bounds, rejection loop; one codec hypothesis) + round-trip execution over all (mode, set, sk provenance, pk provenance) combinations"),
+   text="Lean theorem for every input + differential execution. sign_then_verify (Props/C01c): for every hash oracle, every seed, message, context, pre-hash, rnd, both build modes and the three parameter sets, whenever the model of the crate's sign_internal returns a signature "
+        "under the key pair key_gen_internal produced, the model of verify_internal returns true on it; sign_then_verify_any_provenance: the private key may be the generated struct or the one deserialised from its bytes, the public key the generated struct, the one deserialised "
+        "from its bytes or the one derived from the private key; api_sign_then_verify / api_hash_sign_then_verify: the same for try_sign_with_rng + verify and try_hash_sign_with_rng + hash_verify under every RNG script. No bound on sizes; the proof composes C04 (what key generation stores: t = A s1 + s2, (t1, t0) = Power2Round(t)), "
+        "C03 (sign_internal is Algorithm 7 with exact arithmetic), C02 (verify_internal is Algorithm 8) with the specification-level completeness theorem signature_verifies_spec, itself from: NTT and inverse NTT mutually inverse modulo q over the generated zeta table; the verifier's ring identity "
+        "NTT^-1(A_hat.NTT(z) - NTT(c).NTT(t1 2^d)) = A y - c s2 + c t0 row by row (by evaluation at the 256 roots); UseHint(MakeHint(z, r), r) = HighBits(r + z) and stability of HighBits below the LowBits margin; ||c s|| <= tau eta for every challenge; the rejection loop returns an accepted attempt; "
+        "sigDecode(sigEncode(c~, z, h)) = (c~, z, h) (new: hint_bit_unpack after hint_bit_pack, bit_unpack after bit_pack). What 'returns a signature' leaves open: the model's loop is bounded by fuel * l <= 65535 (the crate's 16-bit counter), the crate loops until acceptance. "
+        "Decided on every run as well by verify(sign(..)) = true on the crate itself over all modes, sets and 2 x 4 key-provenance pairs, plus model agreement on a sample.",
+   note=TB + "the theorem is about the hand-written Lean model of the crate; its tie to the source is the translator (constants, zeta table, parameter sets, decision expressions) and the correspondence run.",
+   tech="Lean 4 proof of sign-then-verify on the model of key_gen_internal / sign_internal / verify_internal and the API wrappers (ring identity, hint duality, norm bounds, rejection loop, codec inverses) + round-trip execution on the crate over all (mode, set, sk provenance, pk provenance) combinations"),
  'C02': dict(cat='proof', ref='DESIGN 5 C02',
    text="Lean theorem for every input (both build modes): for each parameter set, every public-key byte string, message, context, pre-hash and every byte string of signature length, verify_internal on the struct expand_public built returns exactly what "
         "Algorithm 8 returns when written with exact arithmetic modulo q (verification_is_algorithm_8: sigDecode; SampleInBall; ExpandA; w' = NTT^-1(A_hat.NTT(z) - NTT(c).NTT(t1*2^d)) by exact butterflies; UseHint; w1Encode; "
@@ -76,7 +77,7 @@ CLAIMS = {
    text="Lean theorems for every byte string, at full parameters, both build modes: (1) for each parameter set, every signature byte string that sig_decode accepts is reproduced byte for byte by sig_encode of the decoded (c~, z, h), hence two "
         "different byte strings are never read as the same signature; (2) bit_pack(bit_unpack(v)) = v for every accepted v and bit_unpack(bit_pack(w)) = w for every in-range w, for every (a, b) with a + b < 2^bitlen - a bijection "
         "(value-tracking accumulator invariants on both sides + uniqueness of fixed-length little-endian representations); (3) hint_bit_pack(hint_bit_unpack(y)) = y for every accepted hint section, and acceptance implies strictly "
-        "increasing (hence non-repeating) indices per polynomial, non-decreasing counts at most omega, and zero padding (lock-step induction over decoder and encoder loops). Reduced-parameter hint tables by kernel evaluation are "
+        "increasing (hence non-repeating) indices per polynomial, non-decreasing counts at most omega, and zero padding (lock-step induction over decoder and encoder loops); (4) the other direction: hint_bit_unpack(hint_bit_pack(h)) = h for every 0/1 hint with at most omega ones, and for each parameter set sig_decode(sig_encode(c~, z, h)) = (c~, z, h) for every in-range triple, the encoding having signature length and byte entries - so both codecs are bijections between well-formed values and accepted strings. Reduced-parameter hint tables by kernel evaluation are "
         "kept as labelled tests. On every run the same facts are cross-checked by execution against a bit-level FIPS 204 reference: decode/re-encode of honest and forged signatures, every class of hint malformation, range-end vectors "
         "and random strings for each (a,b) in use, exhaustive reduced-parameter enumeration, key codecs.",
    note=TB + "checks/ref/mldsa.py implements Algorithms 9-21 bit by bit (IntegerToBits / BitsToBytes), independent of the crate's streaming accumulators.",
